@@ -357,11 +357,56 @@ def r5_r6(F, R):
     R.floor("C07-R6", 4)
 
 
+def r7(F, R, rid="C07-R7"):
+    R.rule(rid, "the acceptance collector counts every leapfrog: on every path through AcceptanceRateCollector::register_leapfrog exactly one sample is "
+                     "added to the plain and exactly one to the symmetric running mean (a trajectory whose steps are not counted makes the statistic 0/0 = NaN, "
+                     "which `min` then silently maps to ln(max_step_size)); register_init resets both means")
+    bs = [b for b in F.trait_method_impls("Collector", "register_leapfrog") if path_ends(b.parent.get("self_adt") or "", "AcceptanceRateCollector")]
+    if len(bs) != 1:
+        R.missing(rid, "impl Collector::register_leapfrog for AcceptanceRateCollector (found %d)" % len(bs))
+        return
+    b = bs[0]
+    site = "%s @%s" % (b.path, b.loc())
+    lanes = {}
+    for bb, t in b.calls():
+        if path_ends(t["callee"].get("path", ""), "RunningMean::add"):
+            recv = b.value(t["args"][0])
+            f = [n[2] for n in vt_walk(recv) if n[0] == "field"]
+            if f:
+                lanes.setdefault(f[0], {})
+                lanes[f[0]][bb] = lanes[f[0]].get(bb, 0) + 1
+    adt = F.adt("AcceptanceRateCollector")
+    mean_fields = [f["name"] for f in adt["variants"][0]["fields"] if path_ends(f["ty"], "RunningMean")] if adt else []
+    if len(mean_fields) < 2:
+        R.missing(rid, "RunningMean fields of AcceptanceRateCollector")
+    for f in mean_fields:
+        rng_ = K.path_count_range(b, lanes.get(f, {}))
+        key = "%s:%s" % (b.path, f)
+        if rng_ == (1, 1):
+            R.ok(rid, key, site, "every path adds exactly one sample to self.%s" % f)
+        else:
+            R.bad(rid, key, site, "paths through register_leapfrog add between %s and %s samples to self.%s (expected exactly 1 on every path): "
+                  "an uncounted first step leaves the mean at 0/0" % (rng_[0] if rng_ else "?", rng_[1] if rng_ else "?", f))
+    ri = [x for x in F.trait_method_impls("Collector", "register_init") if x.parent.get("impl") == b.parent.get("impl")]
+    for x in ri:
+        resets = set()
+        for bb, t in x.calls():
+            if path_ends(t["callee"].get("path", ""), "RunningMean::reset"):
+                recv = x.value(t["args"][0])
+                resets |= {n[2] for n in vt_walk(recv) if n[0] == "field"}
+        if set(mean_fields) <= resets:
+            R.ok(rid, x.path + ":reset", "%s @%s" % (x.path, x.loc()), "register_init resets %s" % sorted(resets))
+        else:
+            R.bad(rid, x.path + ":reset", "%s @%s" % (x.path, x.loc()), "register_init does not reset %s" % sorted(set(mean_fields) - resets))
+    R.floor(rid, 3)
+
+
 def run(F, R, config="all"):
     r1_r2(F, R)
     r3(F, R)
     r4(F, R)
     r5_r6(F, R)
+    r7(F, R)
     for k, v in PARAM_DOMAINS.items():
         R.assume("option %s in %s (documented domain)" % (k[2:], v))
     R.assume("acceptance statistics and target_accept lie in [0, 1]")
